@@ -48,6 +48,27 @@ def r20a(rep, prog):
     for d in prog.header_decls:
         if d['kind'] == 'function' and d['q'] == common.KNOB and not d['external']:
             prog._knob_internal = True
+    # the knob is one function with one owner: a function template has one static owner per instantiation, so calls with different argument
+    # types do not release each other's control object and TBB applies the minimum of the live limits
+    for knob in knobs:
+        if knob.fref.get('targs'):
+            rep.violation('R20a', knob.body or knob, knob, 'the knob has a single owner of the control object for the whole program',
+                          '%s is a function template: every instantiation (int, unsigned, std::size_t ...) has its own function-local static owner, a call with another '
+                          'argument type does not replace the control object installed before and the smaller limit stays in force' % common.KNOB,
+                          key='R20a|%s|template-knob' % knob.g)
+    # who may call the knob: the driver programs only.  A library algorithm that sets the global limit itself overrides what the caller asked for,
+    # for the rest of the process
+    for f_ in prog.functions:
+        if f_.implicit or f_.body is None or not f_.file.startswith(env.REPO + '/include') or f_.g == common.KNOB:
+            continue
+        for c_ in f_.walk():
+            if ex.is_call(c_, common.KNOB):
+                count += 1
+                g_ = ex.ast_conditions(c_)
+                rep.violation('R20a', c_, f_, 'the concurrency limit is set by the caller only (no library function calls the knob)',
+                              '%s calls set_global_tbb_concurrency(%s)%s: the limit requested by the caller is replaced for the rest of the process' % (
+                                  f_.g, c_.args()[0].text(20) if c_.args() else '', (' when `%s`' % g_[0][0].text(30)) if g_ else ''),
+                              key='R20a|%s|library-call' % f_.g)
     for knob in knobs:
         fns = ex.reachable_functions(prog, [knob])
         for fn in fns:
